@@ -126,7 +126,7 @@ def _one(chk, fi, ex, rules):
         cached = f["cached"]
         if cl is None:
             chk.fail(_f("R4", fi, ex, "cache-never-written", "the cached status of an earlier run is never cleared"))
-        elif cl[1] == "final" and cl[0] != "after" and f["n_run"] != 0:
+        elif cl[1] == "final" and f["cache_then_child"]:
             chk.fail(_f("R4", fi, ex, "stale-cached-status phase=%s" % cl[0],
                         "a final status cached before the last step finished (phase %s) is still cached at exit: "
                         "later reads do not recompute it from the steps" % cl[0]))
